@@ -586,6 +586,9 @@ def loop_ranges(rep, prog, fn):
             # start = ite(i == 0, 0, i - 1), end = ite(i == n - 1, n, i + 2)
             ok_lo = any(re.match(r"^ite\(Eq\((.+), 0\),0,\1 - 1\)$", s_.name.replace(" ", " ")) for s_ in lo.free_symbols) if lo.free_symbols else False
             ok_hi = any(re.match(r"^ite\(Eq\((.+), this\.nb_voxels_%s_ - 1\),this\.nb_voxels_%s_,\1 \+ 2\)$" % (a, a), s_.name) for s_ in hi.free_symbols)
+            # the same two clamps with the tests written the other way round
+            ok_lo = ok_lo or (any(re.match(r"^ite\(Ne\((.+), 0\),\1 - 1,0\)$", s_.name) for s_ in lo.free_symbols) if lo.free_symbols else False)
+            ok_hi = ok_hi or any(re.match(r"^ite\(Ne\((.+), this\.nb_voxels_%s_ - 1\),\1 \+ 2,this\.nb_voxels_%s_\)$" % (a, a), s_.name) for s_ in hi.free_symbols)
             if not (ok_lo and ok_hi):
                 # any other way of writing the same two clamps (other polarity, std::max / std::min, an inlined helper with an
                 # if): decided by case analysis on the values, i = 0 / i >= 1 and i = n - 1 / i <= n - 2
